@@ -131,3 +131,19 @@ Definition hdr_collect (hs : list (bytes * bytes)) : list (bytes * bytes) :=
   fold_left (fun acc e => hdr_insert acc (fst e) (snd e)) hs [].
 Definition hdr_lookup (l : list (bytes * bytes)) (k : bytes) : option bytes :=
   match find (fun e : bytes * bytes => ci_eqb (fst e) k) l with Some e => Some (snd e) | None => None end.
+
+(* Server: product tokens; write joins them with one blank, parse splits the value at blanks and drops
+   empty pieces (fix 8afeff9) *)
+Fixpoint split_blank (s : bytes) (cur : bytes) : list bytes :=   (* cur: current token, reversed *)
+  match s with
+  | [] => match cur with [] => [] | _ => [rev cur] end
+  | c :: r => if ascii_eqb c " " then (match cur with [] => split_blank r [] | _ => rev cur :: split_blank r [] end)
+              else split_blank r (c :: cur)
+  end.
+Definition server_parse (v : bytes) : list bytes := split_blank v [].
+Fixpoint server_write (ts : list bytes) : bytes :=
+  match ts with
+  | [] => []
+  | [t] => t
+  | t :: r => t ++ " "%char :: server_write r
+  end.
